@@ -111,13 +111,17 @@ private:
       --it;
       auto next_it = it;
       ++next_it;
-      if (it->get_interval().ub() >= next_it->get_interval().lb()) {
+      // The merged partition can also overlap with the partitions
+      // that follow it.
+      while (next_it != m_partitions.end() &&
+             it->get_interval().ub() >= next_it->get_interval().lb()) {
         // merge two partitions
         it->join_interval(*next_it);
 	auto &v1 = it->get_dom();
 	auto const&v2 = next_it->get_dom();
         v1 |= v2;
-        it = (m_partitions.erase(next_it));
+        next_it = m_partitions.erase(next_it);
+        it = next_it;
 	--it;
       }
     }
